@@ -52,8 +52,6 @@ theorem fam_optB (n : String) (o : Option Bool) : ∀ x ∈ optB n o, x.name = n
 
 /-! ### lanelets -/
 
-def PtsOk (pts : List Pt) : Prop := ∀ q ∈ pts, PtOk q
-
 theorem pt_bound : PlainType "bound" := by unfold PlainType; decide
 
 theorem valid_bound (p : Nat) (tag : String) {pts : List Pt} {lm : Option String} (h2 : 2 ≤ pts.length) (hp : PtsOk pts)
@@ -71,9 +69,6 @@ theorem valid_bound (p : Nat) (tag : String) {pts : List Pt} {lm : Option String
     | nil => simp at h2
     | cons _ _ => simp)
   simpa [boundNode, el] using this
-
-def StopOk (s : StopLineD) : Prop :=
-  (∀ a b, s.pts = some (a, b) → PtOk a ∧ PtOk b) ∧ ∃ v, s.marking = some v ∧ acceptsV "lineMarking" v = true
 
 theorem pt_stopLine : PlainType "stopLine" := by unfold PlainType; decide
 
@@ -130,12 +125,6 @@ theorem len_adj (tag : String) (o : Option (Int × Bool)) : (adjNode tag o).leng
   | none => simp [adjNode]
   | some t => obtain ⟨i, s⟩ := t; simp [adjNode]
 
-def LaneletOk (l : LaneletD) : Prop :=
-  1 ≤ l.id ∧ 2 ≤ l.left.length ∧ PtsOk l.left ∧ 2 ≤ l.right.length ∧ PtsOk l.right ∧
-  (∀ v, l.lmLeft = some v → acceptsV "lineMarking" v = true) ∧ (∀ v, l.lmRight = some v → acceptsV "lineMarking" v = true) ∧
-  (∀ s, l.stop = some s → StopOk s) ∧ (∀ v ∈ l.types, acceptsV "laneletType" v = true) ∧
-  (∀ v ∈ l.oneWay, acceptsV "vehicleType" v = true) ∧ (∀ v ∈ l.bidir, acceptsV "vehicleType" v = true)
-
 theorem it_lanelet : IdType "lanelet" := by unfold IdType; decide
 
 theorem unknown_laneletType : acceptsV "laneletType" "unknown" = true := by decide
@@ -190,9 +179,6 @@ theorem valid_lanelet (p : Nat) {l : LaneletD} (h : LaneletOk l) : validNode sch
 
 /-! ### traffic signs -/
 
-def SignOk (s : SignD) : Prop :=
-  1 ≤ s.id ∧ s.elements ≠ [] ∧ (∀ e ∈ s.elements, acceptsV "trafficSignID" e.1 = true) ∧ (∀ q, s.pos = some q → PtOk q)
-
 theorem pt_signElement : PlainType "trafficSign/trafficSignElement" := by unfold PlainType; decide
 theorem it_sign : IdType "trafficSign" := by unfold IdType; decide
 
@@ -232,10 +218,6 @@ theorem valid_sign (p : Nat) {s : SignD} (h : SignOk s) : validNode schema "traf
   simpa [signNode, List.append_assoc] using this
 
 /-! ### traffic lights -/
-
-def LightOk (l : LightD) : Prop :=
-  1 ≤ l.id ∧ (∃ es off, l.cycle = some (es, off) ∧ es ≠ [] ∧ ∀ e ∈ es, 1 ≤ e.1 ∧ acceptsV "trafficLightColor" e.2 = true) ∧
-  (∀ q, l.pos = some q → PtOk q) ∧ (∀ v, l.direction = some v → acceptsV "trafficLight/direction" v = true)
 
 theorem pt_cycleElement : PlainType "trafficCycleElement" := by unfold PlainType; decide
 theorem pt_cycle : PlainType "trafficLightCycle" := by unfold PlainType; decide
@@ -302,9 +284,6 @@ theorem valid_light (p : Nat) {l : LightD} (h : LightOk l) : validNode schema "t
   simpa [lightNode, hc, optCycleNodes, List.append_assoc] using this
 
 /-! ### intersections -/
-
-def IncomingOk (i : IncomingD) : Prop := 1 ≤ i.id ∧ i.lanelets ≠ []
-def IntersectionOk (x : IntersectionD) : Prop := 1 ≤ x.id ∧ x.incomings ≠ [] ∧ ∀ i ∈ x.incomings, IncomingOk i
 
 theorem it_incoming : IdType "incoming" := by unfold IdType; decide
 theorem it_intersection : IdType "intersection" := by unfold IdType; decide
